@@ -14,6 +14,7 @@ from cv import gen, hist, observe, ops
 from cv.acc import h
 
 VERBOSE = bool(os.environ.get("CV_VERBOSE"))
+observe.COMPARE_OBJECTIVE_NAME = True
 PROPERTY = "C03"
 LEVEL = "fault_enumeration"
 RULE = (
